@@ -229,6 +229,19 @@ def convex_case(rng, tabulated_frac=0.1):
     else:
         P, R, t, ratio = place(rng, P0)
         c["exact"] = False
+    # hostile placement: the origin exactly on the boundary (at a vertex / on an edge line), so that
+    # plane offsets are exactly zero or pure rounding noise
+    u = rng.random()
+    if u < 0.08:
+        j = int(rng.integers(len(P)))
+        P = P - P[j]
+        c["origin_on_boundary"] = "vertex"
+        ratio = 0.0
+    elif u < 0.12:
+        i, j = rng.choice(len(P), size=2, replace=False)
+        P = P - (P[i] + P[j]) / 2
+        c["origin_on_boundary"] = "segment-midpoint"
+        ratio = 0.0
     perm = rng.permutation(len(P))
     c.update({"P": P[perm], "offset_ratio": ratio, "size": diameter(P)})
     return c
